@@ -8,8 +8,9 @@
 (* that subtracts their minimum, so the complete state graph is finite      *)
 (* without bounding the number of committed bytes or laps.                  *)
 (* `err` records the first violated observation-level clause (C01/C02).     *)
-(* FIXED = 1 models channel_read_map as repaired (continue into the writer's *)
-(* lap when the old lap is exhausted); FIXED = 0 the code before the repair. *)
+(* FIXED = 1 models the repaired code: channel_read_map continues into the  *)
+(* writer's lap when the old lap is exhausted, and channel_write_map moves   *)
+(* caught-up readers to the new lap when it wraps; FIXED = 0 = before.       *)
 (***************************************************************************)
 EXTENDS Naturals, Integers, Sequences, FiniteSets, TLC, Json
 CONSTANTS Cap, MaxReaders, MaxWrite, WithAccept, FIXED, SampleMod
@@ -67,8 +68,11 @@ WriteMap(nb) ==
           /\ high' = IF b # head THEN head ELSE high
           /\ cycle' = IF b # head THEN cycle + 1 ELSE cycle
           /\ head' = b
-          /\ hpos' = IF nw[3] THEN [i \in Readers |-> IF i <= n THEN 0 ELSE hpos[i]] ELSE hpos
-          /\ hcyc' = IF nw[3] THEN [i \in Readers |-> IF i <= n THEN cycle' ELSE hcyc[i]] ELSE hcyc
+          \* on a wrap, readers that are caught up with the old head continue at the start of the new lap
+          \* (should_wrap: all of them, as coded originally; repaired code: also in the "fits before the tail" case)
+          /\ LET Moves(i) == i <= n /\ (nw[3] \/ (FIXED = 1 /\ b # head /\ hpos[i] = head /\ hcyc[i] = cycle)) IN
+             /\ hpos' = [i \in Readers |-> IF Moves(i) THEN 0 ELSE hpos[i]]
+             /\ hcyc' = [i \in Readers |-> IF Moves(i) THEN cycle + 1 ELSE hcyc[i]]
           /\ wbeg' = b /\ wend' = b + nb /\ mapped' = b + nb /\ wmapped' = TRUE
           /\ err' = IF b + nb > Cap THEN "WriteOutOfBuffer"
                     ELSE IF \E o \in Offs : o >= b /\ o < b+nb /\ Needed(o) THEN "WriterOverlapsUnread" ELSE err
